@@ -64,6 +64,7 @@ type Contract struct {
 	Ensures    []Clause
 	Assumes    []Clause
 	Chooses    []Clause // ghost constants of fresh objects chosen at return (assumed)
+	Checks     []Clause // internal postconditions: proved at every return, not exported to callers
 	Modifies   []*CExpr
 	Lets       []LetSpec
 	Loops      map[int]*LoopSpec
@@ -335,7 +336,7 @@ func parseContractText(lines []string, file string, pkgPath string, voc *Vocab) 
 			cur.BV = rest == "bv"
 		case "note":
 			cur.Notes = append(cur.Notes, rest)
-		case "requires", "ensures", "assume", "choose":
+		case "requires", "ensures", "assume", "choose", "check":
 			c, err := parseClause(rest, file, lineNo)
 			if err != nil {
 				return fail(err)
@@ -347,6 +348,8 @@ func parseContractText(lines []string, file string, pkgPath string, voc *Vocab) 
 				cur.Ensures = append(cur.Ensures, c)
 			case "choose":
 				cur.Chooses = append(cur.Chooses, c)
+			case "check":
+				cur.Checks = append(cur.Checks, c)
 			default:
 				cur.Assumes = append(cur.Assumes, c)
 			}
